@@ -721,3 +721,46 @@ def rule_fmtwrite(ctx):
     if n < 1:
         raise AnalysisError("R-FMTWRITE: no file is opened for writing by the code reachable from `scc fmt`")
     return res
+
+
+def rule_nameprint(ctx):
+    """R-NAMEPRINT: text that is used as a name does not depend on the page width"""
+    from ..interp import Adt, Vec, Sym, Interp
+    fx = ctx.fx
+    res = RuleResult("R-NAMEPRINT", "names of type instances are made by printing types (`print_to_string(None)`: the symbol table, the translation of type "
+                     "annotations to Core, the labels of the backends) and are compared as strings afterwards; the text must therefore not "
+                     "depend on where it is printed: with `allow_linebreaks: false` (what print_to_string(None) sets) the printers of types and "
+                     "type arguments - folded with the `pretty` builder modelled - contain no place where the layout may break a line")
+    NONE = Adt("core::option::Option", "None", {})
+    cfg = Adt("scc_printer::types::PrintCfg", "PrintCfg", {"width": 100, "indent": 4, "allow_linebreaks": False, "latex": False, "omit_decl_sep": False})
+    F = "fun::syntax::types::"
+
+    def ty(name, args):
+        return Adt(F + "Ty", "Decl", {"span": NONE, "name": name, "type_args": Adt(F + "TypeArgs", "TypeArgs", {"span": NONE, "args": Vec(args)})})
+    i64 = Adt(F + "Ty", "I64", {"span": NONE})
+    samples = [("TypeArgs", Adt(F + "TypeArgs", "TypeArgs", {"span": NONE, "args": Vec([i64, ty("List", [i64])])})),
+               ("Ty", ty("Pair", [ty("List", [i64]), i64])),
+               ("TypeArgs:empty", Adt(F + "TypeArgs", "TypeArgs", {"span": NONE, "args": Vec([])}))]
+    for nm, val in samples:
+        adt = val.path
+        key = "<%s as scc_printer::types::Print>::print" % adt
+        f = fx.fn(key)
+        I = Interp(fx, hooks=[docmodel.doc_hook], max_depth=12, max_paths=64)
+        outs = [o for o in I.run(f, [val, cfg, Sym("alloc")]) if not getattr(o, "diverged", None)]
+        docs = [o.result for o in outs if isinstance(o.result, docmodel.Doc)]
+        if len(docs) != len(outs) or not docs:
+            raise AnalysisError("R-NAMEPRINT: the printer of %s could not be folded" % nm)
+        ikey = "name-of:%s" % nm
+        bad = [d for d in docs if any(t[0] in ("softline", "line", "hardline") for t in d.toks)]
+        unknown = [t for d in docs for t in d.toks if t[0] == "sym"]
+        if unknown:
+            raise AnalysisError("R-NAMEPRINT: the printer of %s contains a part the printer model could not determine (%r)" % (nm, unknown[0]))
+        if bad:
+            res.inst(ikey, f["sp"]["file"], f["sp"]["line"], "violation")
+            res.violate(ikey, "the printer of %s leaves a line-break opportunity in text printed with allow_linebreaks = false: a type-instance name longer than "
+                        "the page is broken where it is printed with a prefix and not where it is printed alone, so the declaration's name and the "
+                        "annotations that refer to it differ and later stages do not find the type" % nm.split(":")[0], f["sp"]["file"], f["sp"]["line"])
+        else:
+            res.inst(ikey, f["sp"]["file"], f["sp"]["line"], "ok", docmodel.render(docs[0])[:60])
+    res.require_floor(3)
+    return res
